@@ -231,7 +231,7 @@ def run_harness(built, h, canary=False):
         defs.append("-D%s=%s" % (k, v))
     if canary:
         defs.append("-DCANARY")
-    cmd = ["goto-cc"] + defs + ["--function", h.name, built.unit_c, "-o", a]
+    cmd = ["goto-cc", "-I" + os.path.join(VERIF, "models")] + defs + ["--function", h.name, built.unit_c, "-o", a]
     r.cmds.append(" ".join(cmd))
     rc, out, err, secs = run(cmd, timeout=300)
     if rc != 0:
@@ -272,6 +272,8 @@ def run_harness(built, h, canary=False):
         base += ["--external-sat-solver", "kissat"]
     base += h.extra_cbmc
     cmd = base + ["--verbosity", "6"]
+    if canary:
+        cmd += ["--stop-on-fail"]      # one model is enough: is the assert(0) behind the call reachable?
     r.cmds.append(" ".join(cmd))
     rc, out, err, secs = run(cmd, timeout=h.timeout, mem_gb=h.mem_gb)
     r.solver_secs = secs
@@ -304,6 +306,13 @@ def run_harness(built, h, canary=False):
         elif line.startswith("VERIFICATION FAILED"):
             status = "failure"
     r.log = out[-4000:]
+    if canary:
+        r.status = "failed" if "CANARY reachable" in out and status == "failure" else ("proved" if status == "success" else "undecided")
+        if r.status == "failed":
+            r.failed = [{"id": "canary", "class": "assertion", "function": h.name, "desc": "CANARY reachable", "status": "FAILURE", "file": "", "line": ""}]
+        else:
+            r.reason = "canary run: " + (out[-300:] if status is None else status)
+        return r
     nobody = sorted(set(re.findall(r"no body for (?:function|callee) (\S+)", out)))
     ignored = re.findall(r"(?i)ignoring.*(?:forall|exists)", out)
     if status == "success":
@@ -409,7 +418,7 @@ def build_native(built, spec, wrap_file, driver_cpp, name, defines=None, asan=Fa
         f.write(text)
     obj = os.path.join(built.dir, name + "_native.o")
     defs = ["-D%s=%s" % (k, v) for k, v in (defines or {}).items()]
-    rc, out, err, secs = run(["gcc", "-std=gnu11", "-O1", "-g", "-w", "-c", cfile, "-o", obj] + defs + (
+    rc, out, err, secs = run(["gcc", "-std=gnu11", "-O1", "-g", "-w", "-I" + os.path.join(VERIF, "models"), "-c", cfile, "-o", obj] + defs + (
         ["-fsanitize=address,undefined"] if asan else []), timeout=300)
     if rc != 0:
         raise Undecided("native build of the lowered unit failed (lowering defect, not a violation):\n" + err[-3000:])
